@@ -158,8 +158,9 @@ class Graph(object):
                 if t not in self.state:
                     ctx.machinery("dump: successor of a state is not a printed state")
 
-    def shortest_path(self, pred):
-        """Command sequence of a shortest path from the initial state to a state satisfying pred(key) (None if none)."""
+    def shortest_path(self, pred, edge_ok=None):
+        """Command sequence of a shortest path from the initial state to a state satisfying pred(key) (None if none),
+        using only the edges for which edge_ok(state, command) holds."""
         seen = {self.root: None}
         queue = [self.root]
         while queue:
@@ -172,7 +173,7 @@ class Graph(object):
                         path.append((c, o))
                     return list(reversed(path))
                 for c, o, t in self.succ[k]:
-                    if t not in seen:
+                    if t not in seen and (edge_ok is None or edge_ok(self.state[k], c)):
                         seen[t] = (k, c, o)
                         nxt.append(t)
             queue = nxt
@@ -181,6 +182,13 @@ class Graph(object):
     def label(self, a, b):
         """The command lines that lead from state a to state b."""
         return [(c, o) for c, o, t in self.succ.get(a, ()) if t == b]
+
+
+def _follow(g, cmds):
+    k = g.root
+    for c in cmds:
+        k = [t for cc, o, t in g.succ[k] if cc == c][0]
+    return k
 
 
 def parse_trace(output):
@@ -424,7 +432,10 @@ class Bench(object):
                 json.dump([[i, self.model["kind"][i]] for i in self.model["feed"] if i in offered], f)
             return res
         if cmd == "requeue":
-            os.rename(os.path.join(self.work, "cache_done", c["id"]), os.path.join(self.work, "cache_todo", c["id"]))
+            try:
+                os.rename(os.path.join(self.work, "cache_done", c["id"]), os.path.join(self.work, "cache_todo", c["id"]))
+            except OSError as e:       # only when the real directories have already left the spec
+                res["out"], res["error"] = "error", "%s: mv failed" % type(e).__name__
             return res
         _SRC["feed"] = self.feed
         _SRC["saved"] = saved = []
@@ -660,10 +671,6 @@ def _expand(args):
         if res["out"] == "error":
             e = "%s: %s" % (c["cmd"], re.sub(r"'[^']*'", "'...'", res["error"]))
             out["errors"][e] = out["errors"].get(e, 0) + 1
-        if c["cmd"] == "ignore-rejects" and res["out"] == "ok":
-            empty = [i for i in post["area"]["rejects"] if _read(os.path.join(b.store, i, "skip.flag")) != b"{}"]
-            if empty:
-                out["flags"].append(n)
         after = b.snapshot()
         d2 = Bench.digest(after)
         if (tkey, d2) != (key, dg):
@@ -717,7 +724,7 @@ def walk(ctx, pool, gid, graph, tag):
         ctx.drift("%s: after `pipeline init` the work dir projects to %s, the spec's initial state is %s" % (tag, real0, graph.state[graph.root]))
     pred = {(graph.root, d0): None}
     frontier = [(graph.root, d0)]
-    agg = {"runs": 0, "nodes": 0, "levels": 0, "drift_edges": 0, "error_outcomes": {}, "second_flag_empty": 0,
+    agg = {"runs": 0, "nodes": 0, "levels": 0, "drift_edges": 0, "error_outcomes": {},
            "spec_states_reached": set(), "edges_covered": set()}
     found = {}
 
@@ -741,7 +748,6 @@ def walk(ctx, pool, gid, graph, tag):
                 agg["edges_covered"].add((node[0], n))
             for e, cnt in r["errors"].items():
                 agg["error_outcomes"][e] = agg["error_outcomes"].get(e, 0) + cnt
-            agg["second_flag_empty"] += len(r["flags"])
             for n, why in r["drifts"]:
                 agg["drift_edges"] += 1
                 cmds = path_to(node) + [edges[n][0]]
@@ -868,7 +874,6 @@ def _run(ctx):
     import toasty.pipeline.cli  # noqa - imported before the workers fork
     import toasty.builder  # noqa
     import toasty.image  # noqa
-    pool = mp.get_context("fork").Pool(8)       # forked before any TLC thread exists
 
     def tlc(name, model, cfg_text, **kw):
         return ctx.tlc(name, extra={name + ".tla": mc_module(name, model)}, cfg_text=cfg_text, timeout=3000, **kw)
@@ -888,14 +893,14 @@ def _run(ctx):
     for st in fsteps:
         for k, msg in st["alarms"]:
             ctx.violation(k, "%s (after: %s)" % (msg, "; ".join(cmd_text(c) for c in fcmds)), {"model": fmodel, "commands": fcmds})
-    reject = "recorded" if real_model == "recorded" else "aborts"
-    other = "aborts" if reject == "recorded" else "recorded"
-    suites = models(ctx.quick)
-    main_tag, main = suites[0]
-    A, C, D = "imgA", "imgC", "imgD"
-    wedge = {"ids": [A, D], "kind": {A: "ok", D: "ok"}, "feed": [A, D], "fixed": [A, D]}
-    abort = {"ids": [C, A], "kind": {C: "nosave", A: "ok"}, "feed": [C, A], "fixed": [C, A]}
+    pool = mp.get_context("fork").Pool(8)       # forked before any TLC thread exists
+    try:
+        _main(ctx, pool, tlc, real_model, seen, flags)
+    finally:
+        pool.terminate()
 
+
+def _jobs(ctx, suites, main, reject, other, wedge, abort):
     jobs = {}
     for tag, model in suites:
         jobs["graph_" + tag] = (model, cfg(False, reject, invariants=CORE_INV, properties=["Flow"], emit=True), dict(workers=1))
@@ -912,6 +917,19 @@ def _run(ctx):
         jobs["careful_recorded_fixed_order"] = (main, cfg(True, "recorded", fixed=True, invariants=CORE_INV + CAREFUL_INV, properties=["Flow"] + LIVENESS), dict(workers=4))
         jobs["careful_recorded_g3b"] = (suites[1][1], cfg(True, "recorded", invariants=CORE_INV + CAREFUL_INV, properties=["Flow"] + LIVENESS), dict(workers=4))
 
+    return jobs
+
+
+def _main(ctx, pool, tlc, real_model, seen, flags):
+    from concurrent.futures import ThreadPoolExecutor
+    reject = "recorded" if real_model == "recorded" else "aborts"
+    other = "aborts" if reject == "recorded" else "recorded"
+    suites = models(ctx.quick)
+    main_tag, main = suites[0]
+    A, C, D = "imgA", "imgC", "imgD"
+    wedge = {"ids": [A, D], "kind": {A: "ok", D: "ok"}, "feed": [A, D], "fixed": [A, D]}
+    abort = {"ids": [C, A], "kind": {C: "nosave", A: "ok"}, "feed": [C, A], "fixed": [C, A]}
+    jobs = _jobs(ctx, suites, main, reject, other, wedge, abort)
     ex = ThreadPoolExecutor(5)
     rank = ["graph_" + main_tag, "careful_recorded", "refute_any", "refute_aborts"]
     order = sorted(jobs, key=lambda k: (rank.index(k) if k in rank else len(rank), k))
@@ -937,8 +955,7 @@ def _run(ctx):
         wnote[tag] = {"commands_executed_on_real_code": agg["runs"], "nodes (spec state, disk contents)": agg["nodes"],
                       "spec_states_reached": len(agg["spec_states_reached"]), "spec_states_not_reached_because_of_drift": missed,
                       "edges_with_drift": agg["drift_edges"], "levels": agg["levels"], "wall_s": wall, "started_at_s": round(t0 - ctx.t0, 1),
-                      "commands_that_died_as_the_spec_says": dict(sorted(agg["error_outcomes"].items())),
-                      "ignore_rejects_runs_leaving_an_empty_skip_flag": agg["second_flag_empty"]}
+                      "commands_that_died_as_the_spec_says": dict(sorted(agg["error_outcomes"].items()))}
         complete = complete and missed == 0 and agg["drift_edges"] == 0
     pool.close()
     pool.join()
@@ -970,6 +987,27 @@ def _run(ctx):
                      "real_code_follows_the_spec_along_it": synced,
                      "real_state": {"area": {a: v for a, v in real["area"].items() if v}, "store": {i: v for i, v in real["store"].items() if v}}}
     ctx.note("sentences_that_need_the_careful_operator", obs)
+
+    # the documented way to reprocess (mv cache_done/ID cache_todo/ID) applied to an image that is already published:
+    # the only departure from the careful operator allowed on this path is the re-queue itself
+    def documented(s, c):
+        if c["cmd"] == "fetch":
+            return c["id"] not in s["area"]["cache_todo"] + s["area"]["cache_done"]
+        if c["cmd"] == "approve":
+            return c["id"] not in s["area"]["cache_todo"]
+        return True
+
+    def publish_dies(k):
+        return "approved" in g.state[k]["dirs"] and any(c["cmd"] == "publish" and o == "error" for c, o, t in g.succ[k])
+    path = g.shortest_path(publish_dies, documented)
+    requeue = None
+    if path is not None:
+        cmds = [c for c, o in path]
+        cmds.append([c for c, o, t in g.succ[_follow(g, cmds)] if c["cmd"] == "publish" and o == "error"][0])
+        b, steps, synced = replay_commands(ctx, os.path.join(fast_tmp(ctx, "obs"), "o"), g.model, cmds, graph=g, judge=False)
+        requeue = {"commands": [s["cmd"] + ("" if s["outcome"] == "ok" else "  -> " + s["outcome"]) for s in steps],
+                   "real_code_follows_the_spec_along_it": synced}
+        ctx.note("documented_requeue_of_a_published_image", requeue)
 
     live = {}
     for job, model, what in (("refute_any", wedge, "any operator, listings always in the order %s" % wedge["fixed"]),
@@ -1008,6 +1046,11 @@ def _run(ctx):
               "TLC proves OkPublished for the careful operator and refutes it for the unrestricted one%s"
               % ("; ".join(w["commands"]), "; ".join(w["then_every_further"]), w["never_published"],
                  "" if w["real_code_follows_the_spec_along_it"] else " (the real code did NOT follow this counterexample)"))
+    if requeue is not None and requeue["commands"][-1].startswith("publish  -> died"):
+        ctx.drift("OBSERVATION (docs/cli/pipeline-process-todos.rst: 'to reprocess an image, all you have to do is move its data folder from the "
+                  "cache_done directory back to cache_todo'): for an image that is already published the reprocessed result can be approved but never "
+                  "published - [%s], and so on every later publish, which never reaches the images listed after it%s"
+                  % ("; ".join(requeue["commands"]), "" if requeue["real_code_follows_the_spec_along_it"] else " (the real code did NOT follow this path)"))
     if real_model == "aborts":
         a = live["refute_aborts"]
         ctx.drift("OBSERVATION (intended: CandidateInput.save may raise NotActionableError, refresh_impl's handler means to touch rejects/<id> and go on): "
